@@ -98,7 +98,7 @@ CLAIMED = {
             "tied to the applied weight - equals the model's average to 1e-8 and its residual against expm(-dt(H-E_shift)) shrinks >= 3x per "
             "halving at the fine end of the ladder whenever the model's does. The model is validated the same way in every run."
         ),
-        note="Trusts NumPy/SciPy expm and the 150-line Fock engine; real trial coefficients; <= 4 orbitals, <= 3 Cholesky matrices; threshold-adjacent comparisons skipped (1e-7 guard band) and counted.",
+        note="Trusts NumPy/SciPy expm and the 150-line Fock engine; trials rhf/uhf (also with a complex phase convention of their orbitals), ghf/noci (real coefficients), hand-coded cisd/ucisd (state = bra extracted from their overlap routine, verified bilinear); <= 5 orbitals, <= 3 Cholesky matrices; a sampler kind composes model steps against one real sampler call; threshold-adjacent comparisons skipped (1e-7 guard band) and counted.",
         design_ref="DESIGN.md section 5, C04",
     ),
     "C05": dict(
@@ -137,12 +137,13 @@ CLAIMED = {
             "Seeded exploration: (lists) random CI vectors and exact eigenvectors over <= 4 orbitals (open and closed shell) become determinant lists "
             "with random order, random reference determinant and random admissible excitation cut-off through get_excitations(state=...), through a "
             "dets.bin file written by an independent writer and read by the real read_dets, and through pyscf's FCI solver + get_fci_state; the library "
-            "overlap of random complex walkers equals sum_i c_i <D_i|phi> from the Fock engine and, for an eigenvector, every local energy equals the "
+            "overlap of random complex walkers (unrestricted and, for closed-shell sectors, restricted entry point) equals sum_i c_i <D_i|phi> from the Fock engine, force bias and "
+            "local energy equal the mixed estimators of the listed state and, for an eigenvector, every local energy equals the "
             "eigenvalue. (driver) complete driver.afqmc runs with the exact trial on 1-3 simulated ranks, restricted and unrestricted walkers, PRNG-chosen "
             "schedules and injected field tails: a harness propagator records max |E_local - E0| over live walkers at every propagate entry inside the "
             "compiled loops, and every row of samples_raw.dat with non-zero weight and the returned energy equal E0."
         ),
-        note="Fock engine ground energy is cross-checked against pyscf FCI in the pyscf-route runs; full determinant lists only (compiled shapes independent of the reference); restricted walkers only with closed-shell references; blocks with extinct population (weight 0) have no energy and are counted, not compared.",
+        note="Fock engine ground energy is cross-checked against pyscf FCI in the pyscf-route runs; full determinant lists only (compiled shapes independent of the reference); restricted walkers with any reference determinant of a closed-shell sector; blocks with extinct population (weight 0) have no energy and are counted, not compared.",
         design_ref="DESIGN.md section 5, C11",
     ),
 }
@@ -203,7 +204,7 @@ def build():
         ],
         "checks": checks,
         "not_applicable": na,
-        "notes": "Known findings: /verif/known_findings.json. Seeded changes used to test the checks: /verif/seeded/. Sensitivity table: DESIGN.md section 7.",
+        "notes": "Known findings: /verif/known_findings.json. Seeded changes used to test the checks: /verif/seeded/. Sensitivity: /verif/SENSITIVITY.md and DESIGN.md section 12.",
     }
 
 
